@@ -461,11 +461,11 @@ th!(c17_q_recv_nak_progress_resets, 8, {
 //# funcs=RecvTransaction::send_pdu,send_naks,Counter::restart; bound=no progress, count 1 of 2, timer not expired again (concrete counter): NAK sent, timer restarted with the count kept; stubs=S1,S2,S3; nocover=limit|progress
 th!(c17_q_recv_nak_below_limit, 8, { recv_nak_limit(false, false, false, true) });
 //# funcs=RecvTransaction::send_pdu,send_naks,Counter::restart; bound=as above with symbolic count/age below the limit (the fault path that drops the transport permit is explored: slow); stubs=S1,S2,S3
-th!(c17_t_recv_nak_below_limit_symbolic, 8, { recv_nak_limit(false, false, false, false) });
+th!(c17_x_recv_nak_below_limit_symbolic, 8, { recv_nak_limit(false, false, false, false) });
 //# funcs=RecvTransaction::send_pdu,send_naks,handle_fault; bound=no progress, count at the limit, handler symbolic over 4 actions (the early return drops the transport permit: slow); stubs=S1,S2,S3
-th!(c17_t_recv_nak_limit_handler, 8, { recv_nak_limit(true, false, true, false) });
+th!(c17_x_recv_nak_limit_handler, 8, { recv_nak_limit(true, false, true, false) });
 //# funcs=RecvTransaction::send_pdu,send_naks,handle_fault; bound=as above, empty handler map; stubs=S1,S2,S3
-th!(c17_t_recv_nak_limit_default, 8, { recv_nak_limit(false, false, true, false) });
+th!(c17_x_recv_nak_limit_default, 8, { recv_nak_limit(false, false, true, false) });
 
 /// the retransmission itself: from the state the timeout handler leaves (flag armed), exactly one PDU goes out
 fn recv_retransmit_finished() {
